@@ -29,6 +29,7 @@ type Scope struct {
 	heapAbs map[string]Term // define bodies: heap name -> bound variable
 	heapUse map[string]Sort // records heaps read (define analysis)
 	bound  []string
+	qvars  map[string]bool
 }
 
 type specError struct{ msg string }
@@ -177,6 +178,12 @@ func (sc *Scope) Tr(e Expr) (Term, types.Type) {
 				sfail("deref of non-pointer %s", exprString(x.X))
 			}
 			return sc.load(a, pt.Elem()), pt.Elem()
+		case "&":
+			ref, rt, ok := sc.trRef(x.X)
+			if !ok {
+				sfail("& needs a struct-typed field reached through a pointer: %s", exprString(x.X))
+			}
+			return ref, types.NewPointer(rt)
 		}
 	case EBinary:
 		return sc.trBinary(x)
@@ -203,7 +210,12 @@ func (sc *Scope) Tr(e Expr) (Term, types.Type) {
 }
 
 func (sc *Scope) trIdent(name string) (Term, types.Type) {
-	// bound variables and (in old) parameters first
+	// quantifier-bound variables shadow everything
+	if sc.qvars[name] {
+		if v, ok := sc.vars[name]; ok {
+			return v.T, v.Typ
+		}
+	}
 	if sc.frame != nil && !sc.inOld {
 		if t, typ, ok := sc.frame.localByName(sc.st, name); ok {
 			return t, typ
@@ -587,6 +599,13 @@ func (sc *Scope) trBinary(x EBinary) (Term, types.Type) {
 
 func (sc *Scope) trQuant(x EQuant) (Term, types.Type) {
 	n := sc.clone()
+	n.qvars = map[string]bool{}
+	for k := range sc.qvars {
+		n.qvars[k] = true
+	}
+	for _, v := range x.Vars {
+		n.qvars[v.Name] = true
+	}
 	var binders []string
 	var guards []Term
 	for _, v := range x.Vars {
@@ -657,6 +676,21 @@ func (sc *Scope) trCall(x ECall) (Term, types.Type) {
 		n.st = sc.pre
 		n.inOld = false
 		return (&n).Tr(x.Args[0])
+	case "visited":
+		// visited(k): key k has already been produced by the (single) map range of this function
+		var it *rangeIter
+		for _, cand := range sc.vc.iters {
+			if it != nil {
+				sfail("visited(): more than one map range in the function")
+			}
+			it = cand
+		}
+		if it == nil {
+			sfail("visited(): no map range in scope")
+		}
+		k, _ := sc.Tr(x.Args[0])
+		mt := it.mt.Underlying().(*types.Map)
+		return Select(sc.heap(it.visited, ArraySort(env.SortOf(mt.Key()), SBool)), k), tBool
 	case "lastselect":
 		// outcome of the most recent non-blocking select: 0 = received (cancelled), -1 = default
 		return sc.heap("sel!last", SInt), tInt
@@ -831,6 +865,17 @@ func (vc *VC) pureFn(fn *ssa.Function, resIdx int, args []Term) Term {
 
 // callDefine applies a spec function; heaps it reads are passed explicitly.
 func (sc *Scope) callDefine(d *Define, args []Expr) (Term, types.Type) {
+	if sc.vc.analysing {
+		// heap-read analysis: only the arguments matter here (callee heaps are added by the fixpoint)
+		for _, a := range args {
+			sc.Tr(a)
+		}
+		rt, err := sc.vc.p.ResolveType(d.Ret, sc.vc.p.typesPkg(d.PkgPath))
+		if err != nil {
+			sfail("define %s: %v", d.Name, err)
+		}
+		return Term{"|ANALYSIS|", sc.vc.env.SortOf(rt)}, rt
+	}
 	info := sc.vc.defineInfo(d)
 	if len(args) != len(d.Params) {
 		sfail("%s expects %d arguments", d.Name, len(d.Params))
